@@ -1,6 +1,7 @@
 import RR.Proof.SyncSpecs
 import RR.Proof.Hand
 import RR.Proof.Conv
+import RR.Proof.ResamplerSpec
 
 /-!
 # C10 — exactly-specified blocks compute their documented function
@@ -76,6 +77,23 @@ theorem c10_rtlsdr (X : List Nat) (sched : List (Nat × Nat)) :
     (drive1 rtlBlock X () 0 [] sched).2.2 = rtlSpec (X.take (drive1 rtlBlock X () 0 [] sched).2.1) := by
   have := rtl_drive X 0 (by decide) sched
   simpa [rtlSpec, pairs] using this.1
+
+/-- Rational resampler, closed form of its reference output (which every chunking delivers,
+`c08_resampler`): output sample `j` is input sample `k = ⌊j·D/I⌋` — stated without division as
+`k·I ≤ j·D < (k+1)·I` — and `n` inputs give `E` outputs with `n·I ≤ E·D < n·I + D`, i.e.
+`E = ⌈n·I/D⌉`: no sample lost, duplicated beyond its share, or reordered. -/
+theorem c10_resampler (I D : Int) (hI : 0 < I) (hD : 0 < D) (X : List Nat) :
+    (∀ j k : Nat, k < X.length → (k : Int) * I ≤ j * D → (j : Int) * D < (k + 1) * I →
+      (resRef I D 0 X)[j]? = X[k]?) ∧
+    (X.length : Int) * I ≤ (resRef I D 0 X).length * D ∧
+    ((resRef I D 0 X).length : Int) * D < X.length * I + D := by
+  refine ⟨?_, ?_, ?_⟩
+  · intro j k hk h1 h2
+    exact resRef_index I D hI hD X 0 (by omega) (by omega) j k hk (by simpa using h1) (by simpa using h2)
+  · have := (resRef_length I D hI hD X 0 (by omega) (by omega)).1
+    simpa using this
+  · have := (resRef_length I D hI hD X 0 (by omega) (by omega)).2
+    simpa using this
 
 /-- Stream-to-PDU: a per-sample automaton — feeding `a ++ b` is feeding `a`, then `b`
 (chunking is immaterial), and no PDU ever holds more than `max_size` samples. -/
